@@ -15,6 +15,8 @@ import (
 
 type c07Out struct {
 	can  bool
+	can2 bool // the condition evaluated again after the rule's own action list (the next cycle's view)
+	err2 bool
 	err  bool
 	xerr bool
 	s    factSnap
@@ -41,6 +43,10 @@ func c07Run(lib *ast.KnowledgeLibrary, kbName, rule string, f0 *Fact) (c07Out, b
 	// run the action list regardless of the condition: what it computes must not depend on the neighbours either
 	xerr := re.Execute(context.Background(), dc, kb.WorkingMemory)
 	out.xerr = xerr != nil
+	if xerr == nil {
+		can2, eerr2 := re.Evaluate(context.Background(), dc, kb.WorkingMemory)
+		out.can2, out.err2 = can2, eerr2 != nil
+	}
 	out.s = snapFact(f, 0)
 	return out, true
 }
@@ -49,6 +55,7 @@ func c07Same(L string, a, b c07Out) {
 	verif.Assert(L+"condition-fails-alike", a.err == b.err)
 	verif.Assert(L+"candidate-flag-equal", verif.Iff(a.can, b.can))
 	verif.Assert(L+"action-fails-alike", a.xerr == b.xerr)
+	verif.Assert(L+"candidate-flag-after-its-own-actions-equal", verif.And(a.err2 == b.err2, verif.Iff(a.can2, b.can2)))
 	x, y := &a.s.f, &b.s.f
 	same := verif.And(x.I == y.I, verif.And(x.J == y.J, verif.And(x.K == y.K, verif.And(x.RI == y.RI,
 		verif.And(verif.SameFloat64(x.X, y.X), verif.And(verif.SameFloat64(x.Y, y.Y), verif.And(verif.SameFloat64(x.RF, y.RF),
@@ -74,7 +81,7 @@ func VerifC07Pair(idx int) {
 		if !ok {
 			continue
 		}
-		for _, tk := range []string{"T12", "T21"} {
+		for _, tk := range []string{"T12", "T21", "S12", "S21"} {
 			t, ok := c07Run(lib, tk, r, f0)
 			L := "C07:pair(" + tag + "):" + r + ":built-" + tk + ":"
 			verif.Assert(L+"instance-of-the-pair", ok)
